@@ -242,7 +242,7 @@ def check(prog, rep):
             (isinstance(c_.func, ast.Attribute) and dotted(c_.func.value) in ("self", "cls", C.name))
             or any("sense" in src(a_) or src(a_) == "self" for a_ in list(c_.args) + [k_.value for k_ in c_.keywords]))
             and not any(isinstance(r_, ast.Raise) and any(c_ is y_ for y_ in ast.walk(r_)) for r_ in ast.walk(post.node))]
-        elsewhere = [m_.name for m_ in C.methods.values() if m_ is not post and any(isinstance(x_, ast.Raise) for x_ in ast.walk(m_.node)) and "sense" in src(m_.node)]
+        elsewhere = [m_.name for m_ in C.methods.values() if m_ is not post and not getattr(m_.node, "_synthetic", False) and any(isinstance(x_, ast.Raise) for x_ in ast.walk(m_.node)) and "sense" in src(m_.node)]
         if post is None or delegated or elsewhere:
             rep.undecided("Constraint: the sense is not validated by tests written in __post_init__ itself" + (f" (it calls `{src(delegated[0])[:40]}`)" if delegated else f" ({elsewhere[0]} mentions the sense and raises)" if elsewhere else " (no __post_init__)") + "; where it is validated is not followed")
             ok = None
